@@ -217,12 +217,30 @@ def _scale_inputs(V, kind):
     return ss
 
 
-def _pair_eq(V, got_q, got_s, ref64, real_qs, tag):
-    """(multiplier, shift) returned by the code == quantise_scale(reference double)"""
+_RQSQ = z3.Function("RQS_multiplier", fp.F64, z3.IntSort())
+_RQSS = z3.Function("RQS_shift", fp.F64, z3.IntSort())
+
+
+class _RQSStub(_QSStub):
+    """summary of reduced_quantise_scale (the int16 form, decided by `rqs`): its own pair of uninterpreted functions"""
+
+    def __call__(self, x):
+        self.args.append(x)
+        if isinstance(x, SFloat):
+            d = fp.as_f64(x)
+            return SInt(_RQSQ(d)), SInt(_RQSS(d))
+        return self.real(x)
+
+
+def _pair_eq(V, got_q, got_s, ref64, real_qs, tag, ufs=None):
+    """(multiplier, shift) returned by the code == quantise_scale(reference double)  (ufs: the summary pair to compare with)"""
+    fq, fs = ufs or (_QSQ, _QSS)
     if V.symbolic:
-        return [(tag + "multiplier == quantise(reference derivation in double)", L(got_q) == _QSQ(ref64)),
-                (tag + "shift == quantise(reference derivation in double)", L(got_s) == _QSS(ref64))]
+        return [(tag + "multiplier == quantise(reference derivation in double)", L(got_q) == fq(ref64)),
+                (tag + "shift == quantise(reference derivation in double)", L(got_s) == fs(ref64))]
     v = z3.simplify(ref64)
+    if not z3.is_fp_value(v) and not z3.is_fprm_value(v):
+        v = z3.simplify(v)
     bits = z3.simplify(z3.fpToIEEEBV(v)).as_long()
     x = struct.unpack("<d", struct.pack("<Q", bits))[0]
     rq, rs = real_qs(x)
@@ -322,10 +340,11 @@ class _NPD:
         return getattr(np, n)
 
 
-def prep_scales(V, ifm_dtype, op_type, orig_type):
+def prep_scales(V, ifm_dtype, op_type, orig_type, bias_dtype="int32"):
     """weight_compressor._prepare_scale_and_bias: the per-channel scale handed to quantise_scale is the TFLite derivation for the
     ORIGINAL operator: convolutions (also a 1x1 convolution that was re-typed to FullyConnected) multiply in double,
-    genuine FullyConnected and uint8 operators form the input*filter product in float first.  Symbolic float32 scales."""
+    genuine FullyConnected and uint8 operators form the input*filter product in float first; the scale is quantised in the reduced int16 form
+    exactly for an int16 IFM with an int64 bias (the reference's int16 kernels), in the full 31-bit form otherwise.  Symbolic float32 scales."""
     import ethosu.vela.weight_compressor as wc
     from ethosu.vela.data_type import DataType
     from ethosu.vela.operation import Op, RoundingMode
@@ -346,12 +365,13 @@ def prep_scales(V, ifm_dtype, op_type, orig_type):
     op.get_input_quantization = lambda: q(s_i)
     op.get_output_quantization = lambda: q(s_o)
     op.rounding_mode = RoundingMode.TFLite
-    tens.purpose, tens.format, tens.consumer_list, tens.values, tens.dtype, tens.name = TensorPurpose.FeatureMap, TensorFormat.NHWC, [op], [7], DataType.int32, "bias"
+    tens.purpose, tens.format, tens.consumer_list, tens.values, tens.dtype, tens.name = TensorPurpose.FeatureMap, TensorFormat.NHWC, [op], [7], {"int32": DataType.int32, "int64": DataType.int64}[bias_dtype], "bias"
     stub = _QSStub(wc.quantise_scale)
+    rstub = _RQSStub(wc.reduced_quantise_scale)
     saved = (wc.quantise_scale, wc.reduced_quantise_scale)
     if V.symbolic:
         wc.quantise_scale = stub
-        wc.reduced_quantise_scale = stub
+        wc.reduced_quantise_scale = rstub
     try:
         with core.shims((wc, {"np": _NPD(), "hasattr": lambda o, n: False if isinstance(o, SFloat) and n == "__iter__" else hasattr(o, n)})):
             scales, biases = wc._prepare_scale_and_bias(None, tens, None)
@@ -365,7 +385,9 @@ def prep_scales(V, ifm_dtype, op_type, orig_type):
     else:
         ref = z3.fpDiv(RNE, z3.fpMul(RNE, di, dw), do)
     got_q, got_s = scales[0]
-    return _pair_eq(V, got_q, got_s, ref, saved[0], "channel scale: ") + [("one scale per bias", len(scales) == len(biases))]
+    reduced = ifm_dtype == "int16" and bias_dtype == "int64"
+    return _pair_eq(V, got_q, got_s, ref, saved[1] if reduced else saved[0], "channel scale (%s form): " % ("reduced int16" if reduced else "full"),
+                    ufs=(_RQSQ, _RQSS) if reduced else None) + [("one scale per bias", len(scales) == len(biases))]
 
 
 class _Obj:
@@ -482,7 +504,9 @@ def instances(tier, seed):
             out.append(dict(key="pool_rescale/%d/%d" % (n, rb), fn="pool_rescale", params=dict(n=n, rescale_bits=rb)))
     for ifm_dtype, op_type, orig in (("int8", "Conv2DBias", "Conv2DBias"), ("int8", "FullyConnected", "Conv2DBias"), ("int8", "FullyConnected", "FullyConnected"),
                                      ("uint8", "Conv2DBias", "Conv2DBias"), ("int16", "Conv2DBias", "Conv2DBias"), ("int8", "DepthwiseConv2DBias", "DepthwiseConv2DBias")):
-        out.append(dict(key="prep_scales/%s/%s/orig_%s" % (ifm_dtype, op_type, orig), fn="prep_scales", params=dict(ifm_dtype=ifm_dtype, op_type=op_type, orig_type=orig)))
+        for bdt in (("int32", "int64") if ifm_dtype == "int16" else ("int32",)):
+            out.append(dict(key="prep_scales/%s/%s/orig_%s/bias_%s" % (ifm_dtype, op_type, orig, bdt), fn="prep_scales",
+                            params=dict(ifm_dtype=ifm_dtype, op_type=op_type, orig_type=orig, bias_dtype=bdt)))
     for kind in ("f32", "py"):
         for bits in (8, 16):
             for sub in ("ADD", "SUB"):
